@@ -178,6 +178,7 @@ class Explorer:
         self.gaps = 0
         self.exhaustive = False
         self.path_defs = []     # definitional constraints added during a path (re-added on replay)
+        self.functions_seen = set()
 
     # -- raw solver access with accounting
     def check(self, *assumptions):
@@ -272,6 +273,16 @@ class Explorer:
             status, res = "ok", None
             if path_alarm:
                 signal.setitimer(signal.ITIMER_REAL, path_alarm)
+            probe = self.paths in (1, 7, 31)      # a few paths per chunk record which /repo functions were entered
+            if probe:
+                import sys as _sys
+
+                def _prof(frame, event, arg, _seen=self.functions_seen):
+                    if event == "call":
+                        fn_ = frame.f_code.co_filename
+                        if "/norminette/" in fn_:
+                            _seen.add(fn_.split("/norminette/")[-1][:-3].replace("/", ".") + "." + getattr(frame.f_code, "co_qualname", frame.f_code.co_name))
+                _sys.setprofile(_prof)
             try:
                 res = fn()
             except Infeasible:
@@ -283,6 +294,8 @@ class Explorer:
             except PathTimeout as e:
                 status, res = "timeout", e
             finally:
+                if probe:
+                    _sys.setprofile(None)
                 if path_alarm:
                     signal.setitimer(signal.ITIMER_REAL, 0)
             if on_path:
@@ -303,7 +316,8 @@ class Explorer:
     def stats(self):
         return dict(paths=self.paths, forks=self.forks, queries=self.checks, sat=self.n_sat, unsat=self.n_unsat,
                     unknown=self.n_unknown, solver_time_s=round(self.solver_time, 3), vacuous=self.vacuous,
-                    gaps=self.gaps, exhaustive=self.exhaustive, frontier_left=self.frontier())
+                    gaps=self.gaps, exhaustive=self.exhaustive, frontier_left=self.frontier(),
+                    functions=sorted(self.functions_seen))
 
 
 def _alarm(*_a):
